@@ -161,6 +161,9 @@ def pick_index(mode, frac, labels):
         cand = list(range(max(0, L - 10), L))
     elif mode == "out":
         cand = [i for i, l in enumerate(labels) if l.startswith("out:") or l.startswith("h5:")] or list(range(L))
+    elif mode == "h5":
+        # inside the appends of one record (between two datasets, and inside every single append)
+        cand = [i for i, l in enumerate(labels) if l.startswith("h5:")] or list(range(L))
     elif mode == "loop":
         cand = [i for i, l in enumerate(labels) if l.startswith("loop:")] or list(range(L))
     else:
@@ -219,7 +222,7 @@ def cases(draw):
     o = draw(small_config())
     track = [[draw(st.floats(-4, 4)), draw(st.floats(-4, 4))] for _ in range(draw(st.sampled_from([0, 0, 2])))]
     nsig = draw(st.sampled_from([1, 1, 1, 2, 3]))
-    sched = [(draw(st.sampled_from(["uniform"] + ["loop"] * 8 + ["out"] * 8 + ["first", "last", "final"])), draw(st.floats(0, 0.999)))
+    sched = [(draw(st.sampled_from(["uniform"] + ["loop"] * 8 + ["out"] * 6 + ["h5"] * 6 + ["first", "last", "final"])), draw(st.floats(0, 0.999)))
              for _ in range(nsig)]
     c = dict(opts=o, track=track, schedule=sched)
     if draw(st.integers(0, 3)) == 0:
